@@ -746,12 +746,15 @@ func (p Parameters) BinarySize() int {
 	return 4 + len(b)
 }
 
+// maxModulus is the largest modulus supported by the ring arithmetic: the lazy NTT requires 6*q < 2^64.
+// Primes generated for a requested size of MaxModuliSize+1 bits are just below or above 2^(MaxModuliSize+1).
+const maxModulus = math.MaxUint64 / 6
+
 // CheckModuli checks that the provided q and p correspond to a valid moduli chain.
 func CheckModuli(q, p []uint64) error {
 
 	for i, qi := range q {
-		/* #nosec G115 -- error is returned if integer overflow conversion */
-		if uint64(bits.Len64(qi)-1) > MaxModuliSize+1 {
+		if qi > maxModulus {
 			return fmt.Errorf("a Qi bit-size (i=%d) is larger than %d", i, MaxModuliSize)
 		}
 	}
@@ -765,9 +768,8 @@ func CheckModuli(q, p []uint64) error {
 	if p != nil {
 
 		for i, pi := range p {
-			/* #nosec G115 -- error is triggered if integer overflow conversion */
-			if uint64(bits.Len64(pi)-1) > MaxModuliSize+2 {
-				return fmt.Errorf("a Pi bit-size (i=%d) is larger than %d", i, MaxModuliSize)
+			if pi > maxModulus {
+				return fmt.Errorf("a Pi bit-size (i=%d) is larger than %d", i, MaxModuliSize+1)
 			}
 		}
 
